@@ -47,14 +47,14 @@ func Flags(t *rapid.T, label string, pNone int) uint32 {
 
 // CharOpts shapes CharSpec generation.
 type CharOpts struct {
-	MaxLen    int  // upper bound for Length
-	MaxReq    int  // max custom required sets
-	LeafCap   int  // >0: choose Length so |U|^Length <= LeafCap (enumerable cell)
-	Small     bool // bias to small alphabets (Allow=None, short AllowChars)
-	LongTail  int  // >0: with 10% probability Length up to LongTail
-	Pool      []string
-	NoHiBits  bool
-	MinLen    int
+	MaxLen   int  // upper bound for Length
+	MaxReq   int  // max custom required sets
+	LeafCap  int  // >0: choose Length so |U|^Length <= LeafCap (enumerable cell)
+	Small    bool // bias to small alphabets (Allow=None, short AllowChars)
+	LongTail int  // >0: with 10% probability Length up to LongTail
+	Pool     []string
+	NoHiBits bool
+	MinLen   int
 }
 
 // CharSpec draws a character recipe. Length >= 1 (or MinLen).
@@ -202,12 +202,14 @@ func Scheme(t *rapid.T, allowUnknown bool) string {
 
 // SepSpec describes a separator setting in serialisable form.
 type SepSpec struct {
-	Kind   string           `json:"kind"`             // const | preset | func | script | nil
-	Const  string           `json:"const,omitempty"`  // SeparatorChar
-	Preset string           `json:"preset,omitempty"` // name of exported preset
-	Recipe *oracle.CharSpec `json:"recipe,omitempty"` // NewSFFunction(recipe)
-	Script []string         `json:"script,omitempty"` // scripted closure return values (cyclic)
-	ScriptEnt float32       `json:"script_ent,omitempty"`
+	Kind      string           `json:"kind"`               // const | preset | func | script | nil
+	Const     string           `json:"const,omitempty"`    // SeparatorChar
+	Preset    string           `json:"preset,omitempty"`   // name of exported preset
+	Recipe    *oracle.CharSpec `json:"recipe,omitempty"`   // NewSFFunction(recipe)
+	Script    []string         `json:"script,omitempty"`   // scripted closure return values (cyclic)
+	Draw      []string         `json:"draw,omitempty"`     // kind "draw": closure picks one of these uniformly with the library's bounded draw
+	DrawEnt   float32          `json:"draw_ent,omitempty"` // entropy that closure reports (0 = under-claims, allowed)
+	ScriptEnt float32          `json:"script_ent,omitempty"`
 }
 
 // Presets are the exported separator functions by name.
